@@ -37,13 +37,26 @@ package ctlog
 //@   ensures [C01] empty: (ret1 == nil && n == 0) ==> ret0.Hash == mth(emptySeq())
 
 //@ func ctlog.applyStagedUploads props C03 C04
-//@   modifies gApplied, gAppliedOK
+//@   requires config != nil
+//@   init gUp == emptyset("set[string]")
+//@   invariant "for" every-record-read-so-far-was-handed-to-upload: reader != nil && g != nil && reader.grecs == tarRecs(stagedUploads) && 0 <= reader.gpos && reader.gpos <= tlen(reader.grecs) && g.gspawned == reader.gpos
+//@   invariant "for" uploaded-so-far: g.gallok ==> (forall k int :: (0 <= k && k < reader.gpos) ==> gUp[tname(reader.grecs, k)])
+//@   call ctlog.Backend.Upload requires [C03,C04] uploads-the-record-as-staged: c_key == tname(reader.grecs, reader.gpos - 1) && c_data == tdata(reader.grecs, reader.gpos - 1) && c_opts != nil && c_opts.ContentType == jsonCT(topts(reader.grecs, reader.gpos - 1)) && c_opts.Compressed == jsonZ(topts(reader.grecs, reader.gpos - 1)) && c_opts.Immutable == jsonImm(topts(reader.grecs, reader.gpos - 1))
+//@   call ctlog.Backend.Upload requires [C03,C04] one-upload-per-record: g.gspawned == reader.gpos - 1
+//@   ensures [C03,C04] nil-only-if-every-staged-object-was-uploaded: ret == nil ==> (forall k int :: (0 <= k && k < tlen(tarRecs(stagedUploads))) ==> gUp[tname(tarRecs(stagedUploads), k)])
+//@   ensures [C03,C04] earlier-uploads-stay: forall s string :: old(gUp)[s] ==> (gUp[s] && gUpData[s] == old(gUpData)[s])
+//@   modifies gApplied, gAppliedOK, gUp, gUpData, gUpImm, gUpTried
 //@   defines ret == nil ==> gAppliedOK == old(gAppliedOK) + 1 && gApplied == stagedUploads
 //@   defines ret != nil ==> gAppliedOK == old(gAppliedOK) && gApplied == old(gApplied)
 //@ ghost var gApplied bytes
 //@ ghost var gAppliedOK int
 
-//@ func ctlog.marshalStagedUploads props C03
+//@ func ctlog.marshalStagedUploads props C03 C04
+//@   requires [C03,C04] every-upload-has-options: forall k int :: (0 <= k && k < len(uploads)) ==> (uploads[k] != nil && uploads[k].opts != nil)
+//@   invariant "range uploads" one-record-per-upload: rangeindex < len(uploads) && writer != nil && writer.gdst == &buffer && writer.gdst.gcontent == "" && !writer.gphdr && tlen(writer.grecs) == rangeindex + 1
+//@   invariant "range uploads" records-are-the-uploads: forall k int :: (0 <= k && k <= rangeindex) ==> (tname(writer.grecs, k) == uploads[k].key && tdata(writer.grecs, k) == uploads[k].data && topts(writer.grecs, k) == jsonOpts(uploads[k].opts.ContentType, uploads[k].opts.Compressed, uploads[k].opts.Immutable))
+//@   returns [C03,C04] bundle-is-the-archive-of-exactly-the-uploads: ret1 == nil ==> (ret0 == tarBytes(writer.grecs) && tlen(writer.grecs) == len(uploads) && (forall k int :: (0 <= k && k < len(uploads)) ==> (tname(writer.grecs, k) == uploads[k].key && tdata(writer.grecs, k) == uploads[k].data && topts(writer.grecs, k) == jsonOpts(uploads[k].opts.ContentType, uploads[k].opts.Compressed, uploads[k].opts.Immutable))))
+//@   ensures [C03,C04] bundle-decodes-to-exactly-the-uploads: ret1 == nil ==> (tlen(tarRecs(ret0)) == len(uploads) && (forall k int {tname(tarRecs(ret0), k)} :: (0 <= k && k < len(uploads)) ==> (tname(tarRecs(ret0), k) == uploads[k].key && tdata(tarRecs(ret0), k) == uploads[k].data)))
 //@   defines ret1 == nil ==> ret0 == tarOf(uploads)
 //@ pure func tarOf(uploads Slice) bytes
 
@@ -62,6 +75,8 @@ package ctlog
 //@   invariant "range p.pendingLeaves" bound: rangeindex < len(p.pendingLeaves)
 //@   invariant "range p.pendingLeaves" [C04] tile-boundary: n % 256 == 0 ==> ((!has(edgeTiles, -1) || edgeTiles[-1].W == 256) && (!has(edgeTiles, -2) || edgeTiles[-2].W == 256) && len(dataTile) == 0 && len(namesTile) == 0)
 //@   invariant "range p.pendingLeaves" [C04,C07] indexes-are-positions: len(sequencedLeaves) == rangeindex + 1 && (forall k int :: (0 <= k && k < len(sequencedLeaves)) ==> (sequencedLeaves[k] != nil && sequencedLeaves[k].LeafIndex == old(l.tree.N) + k && sequencedLeaves[k].Timestamp == timestamp))
+//@   invariant "range p.pendingLeaves" [C03,C04] staged-tiles-have-options: forall k int :: (0 <= k && k < len(tileUploads)) ==> (tileUploads[k] != nil && tileUploads[k].opts != nil)
+//@   invariant "range tiles" [C03,C04] staged-tiles-have-options2: forall k int :: (0 <= k && k < len(tileUploads)) ==> (tileUploads[k] != nil && tileUploads[k].opts != nil)
 //@   invariant "range p.pendingLeaves" count: n == old(l.tree.N) + rangeindex + 1
 //@   invariant "range p.pendingLeaves" overlay: hashReader != nil && isPrefix(seqOfTree(old(l.tree.Tree)), hashReader.gseq) && slenQ(hashReader.gseq) == n
 //@   invariant "range p.pendingLeaves" no-ops: gReplaceTried == 0 && gUpTried == emptyset("set[string]") && gDiscarded == emptyset("set[string]") && gAppliedOK == 0 && gCachePuts == 0
@@ -84,6 +99,7 @@ package ctlog
 //@   call ctlog.Backend.Discard requires [C03,C04] after-publish: gUp["checkpoint"] && gUpData["checkpoint"] == checkpoint && c_key == stagingPath
 //@   call ctlog.(*Log).cachePut requires [C02,C07] after-publish: gUp["checkpoint"] && gUpData["checkpoint"] == checkpoint && c_entries == sequencedLeaves
 //@   call ctlog.(*Log).cachePut requires [C04,C07] cached-indexes-are-positions: len(sequencedLeaves) == len(p.pendingLeaves) && (forall k int :: (0 <= k && k < len(sequencedLeaves)) ==> (sequencedLeaves[k].LeafIndex == old(l.tree.N) + k && sequencedLeaves[k].Timestamp == timestamp))
+//@   returns [C02,C03,C04] ack-only-after-every-staged-tile-was-uploaded: gAppliedOK == 1 ==> (tlen(tarRecs(stagedUploads)) == len(tileUploads) && (forall k int {tname(tarRecs(stagedUploads), k)} :: (0 <= k && k < len(tileUploads)) ==> (tname(tarRecs(stagedUploads), k) == tileUploads[k].key && gUp[tileUploads[k].key])))
 //@   ensures [C02,C17] waiters-released: closed(p.done)
 //@   ensures [C02] ack-implies-published: p.err == nil ==> gUp["checkpoint"] && gUpData["checkpoint"] == gLastNew && gReplaceOK == 1 && gAppliedOK == 1
 //@   ensures [C02] result-set: p.err == nil ==> p.firstLeafIndex == old(l.tree.N) && p.timestamp > old(l.tree.Time)
